@@ -217,6 +217,7 @@ Definition real_schema : schema := {|
             (Multi (s "parse.buildfilename"), [s "BUILD"; s "BUILD.plz"]);
             (Multi (s "build.path"), [s "/usr/local/bin"; s "/usr/bin"; s "/bin"]);
             (Multi (s "build.passenv"), []);
+            (Multi (s "build.hashcheckers"), [s "sha1"; s "sha256"; s "blake3"]);
             (Multi (s "parse.builddefsdir"), [s "build_defs"]) ];
   derive := Some (o_goroot, o_gotool)
 |}.
